@@ -152,7 +152,9 @@ def main(chk):
     for a, st, viols in fs.pimap(_job, jobs):
         argv, bound, policy, flags = a
         if st is None:
-            raise RuntimeError('drvmc explore gave no result for %r' % (a,))
+            from ..runner import SubjectFailure
+            raise SubjectFailure('explorer/no-result', 'the driver under the simulated world gave no exploration result for %r (crash or hang of the driver code outside an execution)' % (a,),
+                                 cmd='# drvmc explore %s' % ' '.join(map(str, argv)))
         for k in tot:
             tot[k] += st[k]
         maxdepth = max(maxdepth, st['max_choice_depth'])
